@@ -69,7 +69,11 @@ type sgen struct {
 	n     int
 	// usedExt: (extendee, number) pairs taken anywhere in the schema
 	usedExt map[string]bool
+	// msgUsed: exact hostile names already used inside a message
+	msgUsed map[string]map[string]bool
 }
+
+var sgHostile = []string{"type", "func", "range", "map", "string", "int", "nil", "error", "len", "go", "var", "select", "chan", "interface", "struct", "reset", "descriptor", "proto_message", "proto_reflect", "get", "set", "has", "clear", "build", "which", "x_y", "_x", "x_", "new", "make", "append", "bool", "byte", "true", "iota", "init", "main", "package", "import", "default", "return", "state", "size_cache", "unknown_fields", "extension_fields"}
 
 type sgFeat struct {
 	presence  descriptorpb.FeatureSet_FieldPresence
@@ -629,6 +633,20 @@ func (g *sgen) field(full string, fi, syn int, feat sgFeat, visible map[int]bool
 	name := g.id("f")
 	if r.Chance(1, 3) {
 		name = g.id([]string{"foo_bar", "a_b_c", "x", "long_field_name_with_parts", "f_1x", "camelCase"}[r.Intn(6)])
+	}
+	if g.o.HostileNames && r.Chance(1, 3) {
+		// an exact hostile name (Go keyword, predeclared identifier, generated method stem), once per message
+		if g.msgUsed == nil {
+			g.msgUsed = map[string]map[string]bool{}
+		}
+		if g.msgUsed[full] == nil {
+			g.msgUsed[full] = map[string]bool{}
+		}
+		h := sgHostile[r.Intn(len(sgHostile))]
+		if !g.msgUsed[full][h] {
+			g.msgUsed[full][h] = true
+			name = h
+		}
 	}
 	f := &descriptorpb.FieldDescriptorProto{Name: proto.String(name), Number: proto.Int32(alloc()), Label: descriptorpb.FieldDescriptorProto_LABEL_OPTIONAL.Enum()}
 	card := r.Intn(10) // 0-5 optional, 6-8 repeated, 9 required (proto2)
